@@ -106,7 +106,8 @@ Proof. exact (first_pass_record P seeds refs m maxdiff qa q qb o f). Qed.
 (* PROVIDED the run succeeds (results_resolve returns): the query ids of the main file are exactly the ids for which the first
    pass (rows1) OR the second pass (rows2) produced a row with pairs, each exactly once, ascending; and every record is either
    the best row of its query over both passes (a member of f1) or the join of that row x with the query's best second-pass
-   row y (same reference, overlapping).  x = y is possible, see C05_best_mode_self_join below. *)
+   row y (same reference, overlapping; the joined row has at least one pair — joined_ok, repair F9: a join without any pair is not
+   reported, its parts stay).  x = y is possible, see C05_best_mode_self_join below. *)
 Theorem C05_best_mode_total P (seeds : seeding) refs maxdiff qs o : program_run P seeds Best maxdiff refs qs = Ok o ->
   exists rows1 it1 frags rows2 it2,
     execute P seeds refs qs 1 = Ok (rows1, it1) /\ all_fragments rows1 qs = Ok frags /\
@@ -117,7 +118,7 @@ Theorem C05_best_mode_total P (seeds : seeding) refs maxdiff qs o : program_run 
     let f2 := filter_subsequent (map set_rest rows2) in
     forall w, In w (o_main o) ->
       In w f1 \/ exists x y, In x f1 /\ In y f2 /\ qid x = qid w /\ qid y = qid w /\ rid x = rid y /\
-                             check_overlap x y maxdiff = true /\ join_rows x y = Ok w.
+                             check_overlap x y maxdiff = true /\ join_rows x y = Ok w /\ joined_ok w = true.
 Proof. exact (best_mode_total P seeds refs maxdiff qs o). Qed.
 
 (* the self-join.  In 'best' mode first-pass and second-pass rows are concatenated BEFORE the filter, so when a query's best
